@@ -250,6 +250,14 @@ class VCGen:
             return empty(want), want
         if want.k == 'dict' and v is None:
             return default(want), want
+        if t.k == 'list' and t.a[0].k == 'lref' and want.k == 'list' and want.a[0] == LIST(t.a[0].a[0]) and st is not None:
+            # a list of list references where a list of list values is expected (the callee only reads): element-wise content
+            e0 = t.a[0].a[0]
+            r = fresh('deref', want)
+            k = Int(f'k!d{next(Ty._fresh)}')
+            st.pc.append(L_len(r, want) == L_len(v, t))
+            st.pc.append(ForAll([k], Implies(And(0 <= k, k < L_len(v, t)), L_arr(r, want)[k] == st.lheap[e0][L_arr(v, t)[k]])))
+            return r, want
         if want.k == 'tup' and t.k == 'tup' and len(want.a) == len(t.a):
             return tup_mk(want, [s.coerce(tup_get(v, t, i), t.a[i], want.a[i], st)[0] for i in range(len(t.a))]), want
         if want.k == 'lref' and t.k == 'lref':
@@ -2057,17 +2065,18 @@ class VCGen:
         outs = s.apply_contract(q, recv, c, st, line)
         res = []
         for kind, t, v, ty in outs:
+            if kind == 'ok' and target is not None:
+                s.assign(target, v, ty, t, line)
+            ac = s.cur.get('after_call', {}).get(q.split('.', 1)[1])
+            if ac and (kind == 'ok' or ac.get('also_on_raise')):
+                # intermediate assertions after this call: each proved (with the named lemma instances), then assumed
+                for k, h in enumerate(ac.get('hints', [])):
+                    t2 = t.clone()
+                    for u in ac.get('use', {}).get(k, []):
+                        s.use_lemma(t2, u)
+                    s.oblige(t2, f'hint-after:{q.split(".")[-1]}#{k}@{line}' + ('' if kind == 'ok' else '!raise'), s.spec_eval(h, t2, 1), line, 'hint')
+                    t.pc.append(s.spec_eval(h, t, -1))
             if kind == 'ok':
-                if target is not None:
-                    s.assign(target, v, ty, t, line)
-                ac = s.cur.get('after_call', {}).get(q.split('.', 1)[1])
-                if ac:          # intermediate assertions after this call: each proved (with the named lemma instances), then assumed
-                    for k, h in enumerate(ac.get('hints', [])):
-                        t2 = t.clone()
-                        for u in ac.get('use', {}).get(k, []):
-                            s.use_lemma(t2, u)
-                        s.oblige(t2, f'hint-after:{q.split(".")[-1]}#{k}@{line}', s.spec_eval(h, t2, 1), line, 'hint')
-                        t.pc.append(s.spec_eval(h, t, -1))
                 res.append(t)
             else:
                 res += s.do_raise(t, kind[1], v, line)
@@ -2123,7 +2132,7 @@ class VCGen:
             v, t = s.ev(a, st)
             if pt.k == 'list' and t.k == 'lref':
                 v, t = s.deref(v, t, st)
-            cal.env[pn] = s.coerce(v, t, pt)
+            cal.env[pn] = s.coerce(v, t, pt, st)
         for gn, gexpr in ghosts.items():
             # ghost arguments are supplied by the caller's contract (`ghost_args`) or default expressions
             src = s.cur.get('ghost_args', {}).get(q, {}).get(gn, gexpr)
